@@ -429,7 +429,7 @@ def rule_stable(ctx: Ctx) -> None:
     # that build a key nor in the module-level constants they use (a marker made of uuid4() keys a DiskCache directory per process)
     import re as _re
 
-    NONDET = _re.compile(r"^(uuid\.uuid[14]|uuid[14]|random\.|secrets\.|os\.getpid|getpid|os\.urandom|urandom|time\.|datetime\.|id|hash|object|threading\.get_ident|get_ident)$|^(random|secrets)\.")
+    NONDET = _re.compile(r"^(uuid\.uuid[14]|uuid[14]|random\.|secrets\.|os\.getpid|getpid|os\.urandom|urandom|time\.|datetime\.|id|hash|threading\.get_ident|get_ident)$|^(random|secrets)\.")
     funcs = Scope(ctx, fn, wide=True).funcs
     used = {x.id for f_ in funcs for x in ast.walk(f_.node) if isinstance(x, ast.Name)}
     consts = {nm: v for f_ in funcs for nm, v in f_.module.assigns.items() if nm in used}
